@@ -16,6 +16,96 @@ use crate::simfs::SimFs;
 
 type Fail = (String, String);
 
+static DRV_PATH: std::sync::OnceLock<String> = std::sync::OnceLock::new();
+/// protocol-tie statistics of this process: (scheduling events checked, state samples checked, distinct observations)
+pub static TIE: parking_lot::Mutex<(u64, u64, u64)> = parking_lot::Mutex::new((0, 0, 0));
+
+fn b(x: bool) -> &'static str {
+    if x {
+        "1"
+    } else {
+        "0"
+    }
+}
+
+/// Samples the state of the database (under its mutex) from a separate thread until told to stop.
+/// Returns the distinct observations (scheduled, imm, manual, needs, bad, shutting) with counts.
+struct Sampler {
+    stop: Arc<std::sync::atomic::AtomicBool>,
+    handle: Option<std::thread::JoinHandle<std::collections::BTreeMap<(bool, bool, bool, bool, bool, bool), u64>>>,
+}
+
+impl Sampler {
+    fn start(db: &Arc<DB>) -> Sampler {
+        let stop = Arc::new(std::sync::atomic::AtomicBool::new(false));
+        let (d, st) = (Arc::downgrade(db), stop.clone());
+        let handle = std::thread::spawn(move || {
+            let mut seen = std::collections::BTreeMap::new();
+            while !st.load(std::sync::atomic::Ordering::SeqCst) {
+                let Some(db) = d.upgrade() else { break };
+                let s = db.verif_state();
+                drop(db);
+                *seen.entry((s.background_scheduled, s.imm.is_some(), s.manual_compaction_pending, s.needs_compaction, s.bad_state.is_some(), s.shutting_down)).or_insert(0u64) += 1;
+                std::thread::sleep(Duration::from_micros(30));
+            }
+            seen
+        });
+        Sampler { stop, handle: Some(handle) }
+    }
+    fn finish(mut self) -> std::collections::BTreeMap<(bool, bool, bool, bool, bool, bool), u64> {
+        self.stop.store(true, std::sync::atomic::Ordering::SeqCst);
+        self.handle.take().and_then(|h| h.join().ok()).unwrap_or_default()
+    }
+}
+
+/// The model's invariant on everything observed of the scheduling protocol: the sampled states and
+/// the recorded schedule / start / finish events (task and running counters derived from them).
+fn check_protocol(samples: std::collections::BTreeMap<(bool, bool, bool, bool, bool, bool), u64>, fails: &mut Vec<Fail>) {
+    let Some(p) = DRV_PATH.get() else { return };
+    if p == "none" {
+        return;
+    }
+    let mut drv = crate::drv::Drv::spawn(p);
+    let mut tie = TIE.lock();
+    for ((sc, imm, man, needs, bad, shut), n) in samples.iter() {
+        tie.1 += n;
+        tie.2 += 1;
+        let a = drv.ask(&format!("sched.obs {} {} {} {} {} {}", b(*sc), b(*imm), b(*man), b(*needs), b(*bad), b(*shut)));
+        if a != "ok" {
+            fails.push(("c09:work-pending-but-nothing-scheduled".into(), format!("{n} state sample(s) taken while the database mutex was free show scheduled={sc} immutable-memtable={imm} manual-compaction={man} needs-compaction={needs} bad-state={bad} shutting-down={shut}: the model's invariant (work is never left unscheduled) does not hold, so a thread waiting for this work would never be woken (model: {a})")));
+        }
+    }
+    let events = raindb::verif::events_take(crate::dbsim::DB_PATH);
+    let (mut tasks, mut running) = (0i64, false);
+    let mut cache: std::collections::BTreeMap<String, String> = std::collections::BTreeMap::new();
+    for ev in events {
+        let raindb::verif::Event::Sched { kind, scheduled, imm, manual, needs_compaction, bad, shutting_down, level0_files } = ev else { continue };
+        tie.0 += 1;
+        let mut check_now = true;
+        match kind {
+            "schedule" => {
+                tasks += 1;
+                check_now = !running; // inside the worker's own critical section the step is not finished yet
+            }
+            "start" => {}
+            "finish" => running = false,
+            _ => {}
+        }
+        if check_now {
+            let req = format!("sched.inv {} {} {} {} {} {} {} {} {} 0", b(scheduled), tasks.max(0), b(running), b(imm), b(manual), b(needs_compaction), b(bad), b(shutting_down), level0_files);
+            let a = cache.entry(req.clone()).or_insert_with(|| drv.ask(&req)).clone();
+            if a != "ok" || tasks < 0 {
+                fails.push(("c09:scheduling-protocol-outside-the-verified-invariant".into(), format!("at a '{kind}' step of the background worker protocol the observed state (flag={scheduled}, queued tasks={tasks}, running={running}, immutable-memtable={imm}, manual={manual}, needs-compaction={needs_compaction}, level-0 files={level0_files}, bad={bad}, shutting-down={shutting_down}) violates the model's invariant: {a}")));
+                break;
+            }
+        }
+        if kind == "start" {
+            tasks -= 1;
+            running = true;
+        }
+    }
+}
+
 fn open(cfg: &Cfg, fs: &SimFs) -> Result<DB, Fail> {
     DB::open(cfg.options(fs)).map_err(|e| ("c09:open-failed".to_string(), e.to_string()))
 }
@@ -62,10 +152,12 @@ fn sustained(seed: u64) -> Vec<Fail> {
     let mut cfg = Cfg::gen(&mut rng);
     cfg.memtable = *rng.pick(&[256usize, 512]);
     cfg.file = *rng.pick(&[256u64, 1024, 1 << 20]);
+    let _ = raindb::verif::events_take(crate::dbsim::DB_PATH);
     let db = match open(&cfg, &fs) {
         Ok(d) => Arc::new(d),
         Err(f) => return vec![f],
     };
+    let sampler = Sampler::start(&db);
     let nthreads = rng.range(1, 4) as usize;
     let n = rng.range(300, 1500);
     let mut hs = vec![];
@@ -97,6 +189,7 @@ fn sustained(seed: u64) -> Vec<Fail> {
             fails.push(("c09:panic".into(), "a client thread panicked".into()));
         }
     }
+    let samples = sampler.finish();
     // close right away (while background work may still be scheduled)
     match Arc::try_unwrap(db) {
         Ok(d) => {
@@ -106,6 +199,7 @@ fn sustained(seed: u64) -> Vec<Fail> {
         }
         Err(_) => {}
     }
+    check_protocol(samples, &mut fails);
     fails
 }
 
@@ -238,8 +332,9 @@ pub fn rule() -> &'static str {
     "watchdog scenarios on the real database: every descriptor kind; sustained multi-threaded writes with 256-512 byte memtables (memtable-full waits, level-0 slowdown and stop) with a concurrent manual compaction, closed immediately afterwards; closing while an iterator is alive; degenerate option values (memtable 0/1/64, file size 0/1, block size 0/1); snapshots and iterators taken and released from several threads. A scenario that does not finish within its deadline is a hang; any panic of the compaction thread is recorded by the process-wide panic hook. Non-trivial = the scenario ran; distinct by (scenario, seed)."
 }
 
-pub fn run(tier: &str, seed: u64, replay: Option<&str>, shard: Option<ShardArgs>) -> Report {
+pub fn run(tier: &str, seed: u64, replay: Option<&str>, shard: Option<ShardArgs>, drv_path: &str) -> Report {
     crate::lsm::install_panic_hook();
+    let _ = DRV_PATH.set(drv_path.to_string());
     let mut rep = Report::new("c09", rule());
     let thorough = tier == "thorough";
     let scenarios: Vec<(&str, fn(u64) -> Vec<Fail>, u64, u64)> = vec![
@@ -296,5 +391,10 @@ pub fn run(tier: &str, seed: u64, replay: Option<&str>, shard: Option<ShardArgs>
             run_one(name, *f, s, *secs, &mut rep);
         }
     }
+    let t = *TIE.lock();
+    rep.add("c09.protocol-events-checked-against-the-model-invariant", t.0);
+    rep.add("c09.state-samples-checked-against-the-model-invariant", t.1);
+    rep.add("c09.distinct-observations", t.2);
+    rep.model_requests += t.0 + t.2;
     rep
 }
